@@ -264,3 +264,123 @@ equivalent("c12-eq-early-return-positive", "C12", (V, """        if not self.ena
             return None
 
         if not self.defuzzifier:"""))
+
+# ------------------------------------------------------------------------------------------ C01 / C07 / C06 wiring
+mutant("c01-drop-weight", ["C01", "C06"], (R, "self.activation_degree = self.weight * self.antecedent.activation_degree(", "self.activation_degree = 1.0 * self.antecedent.activation_degree("), "P3/Rule.activate_with/weight")
+mutant("c01-or-uses-conjunction", ["C01", "C06"], (R, """                return disjunction.compute(
+                    self.activation_degree(conjunction, disjunction, node.left),""", """                return conjunction.compute(
+                    self.activation_degree(conjunction, disjunction, node.left),"""), "P9/Antecedent.activation_degree/operator-or")
+mutant("c01-implication-is-conjunction", ["C01", "C08"], (A, """        implication = rule_block.implication
+
+        for rule in rule_block.rules:
+            rule.deactivate()
+            if rule.is_loaded():
+                rule.activate_with(conjunction, disjunction)""", """        implication = rule_block.conjunction
+
+        for rule in rule_block.rules:
+            rule.deactivate()
+            if rule.is_loaded():
+                rule.activate_with(conjunction, disjunction)"""), "P2/General.activate/implication")
+mutant("c01-clear-first-only", ["C01", "C13"], (E, """        for variable in self.output_variables:
+            variable.fuzzy.clear()
+""", """        for variable in self.output_variables[:1]:
+            variable.fuzzy.clear()
+"""), "Engine.process/clear-all")
+mutant("c01-ignore-block-enabled", "C01", (E, """            if block.enabled:
+                block.activate()""", """            block.activate()"""), "P1/Engine.process/activate-enabled-blocks")
+mutant("c01-clear-guarded-by-enabled", ["C01", "C13"], (E, """        for variable in self.output_variables:
+            variable.fuzzy.clear()
+""", """        for variable in self.output_variables:
+            if variable.enabled:
+                variable.fuzzy.clear()
+"""), "Engine.process/clear-all")
+mutant("c01-trigger-before-activate", ["C01", "C08"], (A, """                rule.activate_with(conjunction, disjunction)
+                rule.trigger(implication)
+
+
+class First""", """                rule.trigger(implication)
+                rule.activate_with(conjunction, disjunction)
+
+
+class First"""), "O-seq/General.activate/trigger")
+mutant("c01-append-to-first-conclusion-variable", ["C01", "C07"], (R, "                    proposition.variable.fuzzy.terms.append(activated_term)", "                    self.conclusions[0].variable.fuzzy.terms.append(activated_term)"), "P5/Consequent.modify/target")
+mutant("c01-fold-seed-one", "C01", (T, """        y = scalar(0.0)
+        for term in self.terms:
+            y = self.aggregation.compute(y, term.membership(x))""", """        y = scalar(1.0)
+        for term in self.terms:
+            y = self.aggregation.compute(y, term.membership(x))"""), "P7/Aggregated.membership/seed")
+mutant("c01-fold-not-carried", "C01", (T, "            y = self.aggregation.compute(y, term.membership(x))  # type: ignore", "            y = self.aggregation.compute(scalar(0.0), term.membership(x))  # type: ignore"), "P7/Aggregated.membership/fold")
+mutant("c01-disabled-variable-returns-one", ["C01", "C06"], (R, """            if not node.variable.enabled:
+                return scalar(0.0)""", """            if not node.variable.enabled:
+                return scalar(1.0)"""), "P9/Antecedent.activation_degree/disabled-variable")
+mutant("c01-hedges-not-reversed", ["C01", "C06"], (R, """            for hedge in reversed(node.hedges):
+                result = hedge.hedge(result)
+
+            return result
+
+        # OPERATOR""", """            for hedge in node.hedges:
+                result = hedge.hedge(result)
+
+            return result
+
+        # OPERATOR"""), "P9/Antecedent.activation_degree/input-variable")
+mutant("c01-output-antecedent-uses-membership", ["C01", "C06"], (R, "result = node.variable.fuzzy.activation_degree(node.term)", "result = node.term.membership(node.variable.value)"), "P9/Antecedent.activation_degree/output-variable")
+mutant("c01-defuzzify-range-swapped", "C01", (V, "self.defuzzifier.defuzzify(self.fuzzy, self.minimum, self.maximum)", "self.defuzzifier.defuzzify(self.fuzzy, self.maximum, self.minimum)"), "P8/")
+mutant("c01-operands-swapped-children", ["C01", "C06"], (R, """                return conjunction.compute(
+                    self.activation_degree(conjunction, disjunction, node.left),
+                    self.activation_degree(conjunction, disjunction, node.right),""", """                return conjunction.compute(
+                    self.activation_degree(conjunction, disjunction, node.left),
+                    self.activation_degree(conjunction, disjunction, node.left),"""), "P9/Antecedent.activation_degree/operator-and")
+mutant("c01-activated-ignores-degree", "C01", (T, """        y = self.implication.compute(
+            np.atleast_2d(self.degree).T,
+            self.term.membership(x),
+        )""", """        y = self.implication.compute(
+            np.atleast_2d(1.0).T,
+            self.term.membership(x),
+        )"""), "P6/Activated.membership/operands")
+mutant("c01-lookup-by-first-term", "C01", (T, "activated = self.grouped_terms().get(term.name)", "activated = next(iter(self.grouped_terms().values()), None)"), "P10/")
+mutant("c07-second-append", ["C07", "C01"], (R, """                    proposition.variable.fuzzy.terms.append(activated_term)
+                else:""", """                    proposition.variable.fuzzy.terms.append(activated_term)
+                    if proposition.hedges:
+                        proposition.variable.fuzzy.terms.append(activated_term)
+                else:"""), "P5/Consequent.modify/one-per-enabled-conclusion")
+mutant("c07-enabled-guard-dropped", ["C07", "C01"], (R, "            if proposition.variable.enabled:\n                for hedge in reversed(proposition.hedges):", "            if True:\n                for hedge in reversed(proposition.hedges):"), "P5/Consequent.modify/one-per-enabled-conclusion")
+mutant("c07-posinf-zero", "C07", (T, "np.nan_to_num(value, nan=0.0, neginf=0.0, posinf=1.0)", "np.nan_to_num(value, nan=0.0, neginf=0.0, posinf=0.0)"), "T2/Activated.degree/posinf")
+mutant("c07-neginf-default", "C07", (T, "np.nan_to_num(value, nan=0.0, neginf=0.0, posinf=1.0)", "np.nan_to_num(value, nan=0.0, posinf=1.0)"), "T2/Activated.degree/neginf")
+mutant("c07-constructor-bypasses-setter", "C07", (T, "        self.term = term\n        self.degree = degree\n        self.implication = implication", "        self.term = term\n        self._degree = degree\n        self.implication = implication"), "T2/Activated.__init__")
+mutant("c07-rule-disabled-still-modifies", ["C07", "C01"], (R, """        if self.enabled:
+            self.consequent.modify(self.activation_degree, implication)
+            self.triggered = array(self.activation_degree > 0.0)""", """        self.consequent.modify(self.activation_degree, implication)
+        if self.enabled:
+            self.triggered = array(self.activation_degree > 0.0)"""), "P4/Rule.trigger/enabled")
+mutant("c07-consequent-hedges-forward", "C07", (R, "                for hedge in reversed(proposition.hedges):\n                    activation_degree = hedge.hedge(activation_degree)", "                for hedge in proposition.hedges:\n                    activation_degree = hedge.hedge(activation_degree)"), "H1/Consequent.modify")
+MODIFY_LOOP = """            if proposition.variable.enabled:
+                for hedge in reversed(proposition.hedges):
+                    activation_degree = hedge.hedge(activation_degree)
+
+                if not proposition.term:
+                    raise ValueError(
+                        f"expected a term in proposition '{proposition}', but found none"
+                    )
+                activated_term = Activated(proposition.term, activation_degree, implication)
+"""
+MODIFY_FIXED = """            if proposition.variable.enabled:
+                degree = activation_degree
+                for hedge in reversed(proposition.hedges):
+                    degree = hedge.hedge(degree)
+
+                if not proposition.term:
+                    raise ValueError(
+                        f"expected a term in proposition '{proposition}', but found none"
+                    )
+                activated_term = Activated(proposition.term, degree, implication)
+"""
+# the repaired variant must be silent on L1 (it removes the known finding: the baseline key disappears, nothing new appears)
+equivalent("c07-eq-repaired-local-degree", "C07", (R, MODIFY_LOOP, MODIFY_FIXED))
+mutant("c07-carried-through-other-name", "C07", [(R, "        for proposition in self.conclusions:\n            if not proposition.variable:", "        last = None\n        for proposition in self.conclusions:\n            if not proposition.variable:"), (R, MODIFY_LOOP, MODIFY_FIXED.replace("                degree = activation_degree\n", "                degree = last if last is not None else activation_degree\n").replace("                activated_term = Activated(proposition.term, degree, implication)\n", "                activated_term = Activated(proposition.term, degree, implication)\n                last = degree\n"))], "L1/Consequent.modify/")
+equivalent("c01-eq-process-index-loops", "C01", (E, """        for block in self.rule_blocks:
+            if block.enabled:
+                block.activate()""", """        for rb in list(self.rule_blocks):
+            if not rb.enabled:
+                continue
+            rb.activate()"""))
